@@ -379,6 +379,8 @@ func runC02(p *Program, r *Result) {
 					strings.HasSuffix(s, ".0 <= invoke (cipher.AEAD).Overhead(Field(Recv.a))") || strings.HasSuffix(s, ".0 <= 16")):
 					// implied by n == Overhead (an earlier refusal of a chunk shorter than the tag)
 				case s == "len(Field(Recv.unread)) == 0":
+				case s == "Field(Recv.err) == nil":
+					// the reader has not failed or ended yet (otherwise readChunk is not entered)
 				case a.Kind == "bool" && a.X != nil && a.X.Op == "Phi":
 					// the merged result of a spliced predicate: its meaning is carried by the threaded facts
 				case strings.HasPrefix(s, "(RangeIdx#") && a.Kind == "cmp":
